@@ -56,6 +56,14 @@ def analyse(lines):
                 problems.append("the owner's %s failed: %s" % (rest[0], " ".join(rest[1:])))
             continue
         k = rest[0]
+        if is_worker and k in ("flock", "openlock"):
+            # the lock belongs to the store; its worker thread has no business with it
+            if k == "flock" and rest[1] == "unlock":
+                problems.append("a flush worker of process %s released the directory lock while its store (%s) still has the directory open" % (pid, holder))
+                if holder is not None and holder.split(".")[0] == pid:
+                    toks.append("d%d" % ids[holder])
+                    holder = None
+            continue
         if k == "openlock":
             toks.append("o%d" % c)
         elif k == "flock" and rest[1] == "trying":
